@@ -125,11 +125,12 @@ func canonOf(s string) string {
 // generation
 
 // op layout: K=kind, I = [ledger, a, sa, b, sb, x, sx, amode, aval]
-//   a, b : pool index of the first / second account argument, sa, sb : spelling index
-//   x    : pool index of the executor argument (execs are 6..8), sx its spelling
-//   amode: 0 absolute amount aval; 1 = what the source can spend + aval;
-//          2 = room left under the balance limit at the destination + aval;
-//          3 = aval/8 of what the source can spend; 4 = min(aval, what the source can spend)
+//
+//	a, b : pool index of the first / second account argument, sa, sb : spelling index
+//	x    : pool index of the executor argument (execs are 6..8), sx its spelling
+//	amode: 0 absolute amount aval; 1 = what the source can spend + aval;
+//	       2 = room left under the balance limit at the destination + aval;
+//	       3 = aval/8 of what the source can spend; 4 = min(aval, what the source can spend)
 var kinds = []string{
 	"transfer", "toexec", "withdraw", "frozen", "active", "exectransfer", "exectransferfrozen",
 	"execdeposit", "execwithdraw", "execdepositfrozen", "execissue", "mint", "burn", "genesis", "genesisexec",
@@ -178,14 +179,17 @@ func kindIndex(k string) int {
 
 func (c15) Generate(prop string, r *simrt.RNG, tier string, run int) *simrt.Scenario {
 	sc := &simrt.Scenario{Knobs: map[string]int64{}}
-	// xcase: executor address arguments may also be spelled in mixed case
-	// (rare: on the current tree this is a finding of its own and a worker stops
-	// after two violations; see the report)
-	if r.Chance(1, 300) {
+	// STRICT / OPEN. A mixed-case spelling of a hex EXECUTOR address addresses a
+	// separate set of sub-accounts (execAccountKey uses the string as given): a
+	// recorded known finding. STRICT scenarios (70 %) never spell an executor
+	// address argument in anything but its canonical form, so whatever they report
+	// is something else; OPEN scenarios (knob xcase=1) do, and every violation that
+	// involves such a spelling carries "executor-in-other-spelling" in its sig.
+	if r.Chance(3, 10) {
 		sc.Knobs["xcase"] = 1
 	}
 	// twosp: one call may name the same account twice in two different spellings
-	twosp := r.Chance(1, 100)
+	twosp := r.Chance(1, 3)
 	if twosp {
 		sc.Knobs["twosp"] = 1
 	}
@@ -399,7 +403,7 @@ func (e *env) parse(d map[string]string) ([2]*realState, *simrt.Violation) {
 			if out[l].sub[x][ad] != nil {
 				sig := "executor-sub-account"
 				if parts[0] != x {
-					sig += "/executor-spelling-in-key"
+					sig += "/executor-in-other-spelling-in-key"
 				}
 				if parts[1] != ad {
 					sig += "/address-spelling-in-key"
